@@ -6,18 +6,18 @@ import CtyModel.SetRulesSpec
 namespace CtyModel
 namespace Num
 
-def fixZero (s : String) : String := if s == "-0" then "0" else s
+def fixZeroText (s : String) : String := if s == "-0" then "0" else s
 
 /-- what `rawNumberEqual` compares -/
 def eqKey (text : Num → String) (a : Num) : Int × Bool × Option Int × String :=
-  (a.sign, a.isInt, if a.isInt then a.truncInt else none, if a.isInt then "" else fixZero (text a))
+  (a.sign, a.isInt, if a.isInt then a.truncInt else none, if a.isInt then "" else fixZeroText (text a))
 
 theorem rawEqualWith_iff (text : Num → String) (a b : Num) :
     rawEqualWith text a b = true ↔ eqKey text a = eqKey text b := by
   simp only [rawEqualWith, eqKey, Prod.mk.injEq]
   by_cases hs : a.sign = b.sign
   · by_cases hi : a.isInt = b.isInt
-    · cases hb : b.isInt <;> simp [hs, hi, hb, fixZero]
+    · cases hb : b.isInt <;> simp [hs, hi, hb, fixZeroText]
     · simp [hs, hi]
   · simp [hs]
 
@@ -41,9 +41,9 @@ theorem rawEqualWith_trans (text : Num → String) (a b c : Num)
 
 theorem rawEqual_eq_with : rawEqual = rawEqualWith textF := rfl
 
-theorem rawEqual_refl (a : Num) : rawEqual a a = true := rawEqualWith_refl _ a
-theorem rawEqual_symm (a b : Num) : rawEqual a b = rawEqual b a := rawEqualWith_symm _ a b
-theorem rawEqual_trans (a b c : Num) (h1 : rawEqual a b = true) (h2 : rawEqual b c = true) :
+theorem rawEq_refl (a : Num) : rawEqual a a = true := rawEqualWith_refl _ a
+theorem rawEq_symm (a b : Num) : rawEqual a b = rawEqual b a := rawEqualWith_symm _ a b
+theorem rawEq_trans (a b c : Num) (h1 : rawEqual a b = true) (h2 : rawEqual b c = true) :
     rawEqual a c = true := rawEqualWith_trans _ a b c h1 h2
 
 end Num
